@@ -3,6 +3,7 @@ import z3
 from sqlsym import V, vint, vstr, vbool, Rel, Row
 
 JSONKEYS = ("k1", "k2")
+POSTINGS = 2  # posting slots per transaction row
 
 
 def vjson(prefix, keys=JSONKEYS, null=None):
@@ -25,7 +26,7 @@ def table(name, K, cols, tag=""):
         vals = []
         for c in cols:
             cname, kind = c[0], c[1]
-            nullable = len(c) > 2 and c[2]
+            nullable = len(c) > 2 and c[2] is True
             null = z3.Bool(f"{p}.{cname}.null") if nullable else None
             n = f"{p}.{cname}"
             if kind == "str":
@@ -38,6 +39,12 @@ def table(name, K, cols, tag=""):
                 vals.append(vjson(n, null=null))
             elif kind == "comp":
                 vals.append(vcomp(n, null))
+            elif kind == "arr":
+                # the segment array of the address in column c[2] of the same row
+                vals.append(V("arr", z3.String(f"{p}.{c[2]}")))
+            elif kind == "addrset":
+                # the addresses of one end (c[2]: src | dst) of the row's posting slots
+                vals.append(V("addrset", [(z3.Bool(f"{p}.posting{j}.present"), z3.String(f"{p}.posting{j}.{c[2]}")) for j in range(POSTINGS)]))
             else:
                 vals.append(opaque())
         rows.append(Row(z3.Bool(f"{p}.present"), vals))
@@ -62,12 +69,12 @@ MOVES = [("ledger", "str"), ("seq", "int"), ("transactions_id", "int"), ("accoun
          ("is_source", "bool"), ("insertion_date", "int"), ("effective_date", "int"), ("post_commit_volumes", "comp", True),
          ("post_commit_effective_volumes", "comp", True), ("accounts_address_array", "opaque")]
 ACCOUNTS_VOLUMES = [("ledger", "str"), ("accounts_address", "str"), ("asset", "str"), ("input", "int"), ("output", "int")]
-ACCOUNTS = [("ledger", "str"), ("address", "str"), ("address_array", "opaque"), ("first_usage", "int"), ("insertion_date", "int"),
+ACCOUNTS = [("ledger", "str"), ("address", "str"), ("address_array", "arr", "address"), ("first_usage", "int"), ("insertion_date", "int"),
             ("updated_at", "int"), ("metadata", "json")]
 ACCOUNTS_METADATA = [("ledger", "str"), ("accounts_address", "str"), ("revision", "int"), ("date", "int"), ("metadata", "json")]
 TRANSACTIONS = [("ledger", "str"), ("id", "int"), ("timestamp", "int"), ("reference", "str", True), ("inserted_at", "int"), ("updated_at", "int"),
-                ("reverted_at", "int", True), ("postings", "opaque"), ("sources", "opaque"), ("destinations", "opaque"), ("sources_arrays", "opaque"),
-                ("destinations_arrays", "opaque"), ("template", "opaque"), ("metadata", "json"), ("post_commit_volumes", "opaque")]
+                ("reverted_at", "int", True), ("postings", "opaque"), ("sources", "addrset", "src"), ("destinations", "addrset", "dst"), ("sources_arrays", "addrset", "src"),
+                ("destinations_arrays", "addrset", "dst"), ("template", "opaque"), ("metadata", "json"), ("post_commit_volumes", "opaque")]
 TRANSACTIONS_METADATA = [("ledger", "str"), ("transactions_id", "int"), ("revision", "int"), ("date", "int"), ("metadata", "json")]
 LOGS = [("ledger", "str"), ("id", "int"), ("seq", "int"), ("type", "str"), ("date", "int"), ("idempotency_key", "str", True), ("idempotency_hash", "str"),
         ("hash", "str", True), ("data", "opaque"), ("memento", "opaque"), ("schema_version", "opaque")]
